@@ -67,6 +67,9 @@ def judge(chk, who, scale, recs, case, tmle=False, fixed_alpha=False):
         chk.d(se >= 0, '%s: standard error is non-negative' % who, c)
         if scale == 'lin':
             wl, wu, lo, pt, hi = est - z * se, est + z * se, lcl, est, ucl
+        elif scale == 'log' and not est > 0:
+            chk.count('ratio_estimate_nonpositive_not_judged')      # log scale undefined: outside the property
+            continue
         elif scale == 'log':
             wl, wu, lo, pt, hi = math.exp(math.log(est) - z * se), math.exp(math.log(est) + z * se), lcl, est, ucl
         else:  # recip
@@ -183,10 +186,14 @@ def stream_frames(chk, drv, rng, tier):
             store = {}
             for alpha in GRID:
                 obj = getattr(zepid, cls)(reference=0, alpha=alpha)
-                if cls.startswith('Incidence'):
-                    obj.fit(df, exposure='exp', outcome='dis', time='t')
-                else:
-                    obj.fit(df, exposure='exp', outcome='dis')
+                try:
+                    if cls.startswith('Incidence'):
+                        obj.fit(df, exposure='exp', outcome='dis', time='t')
+                    else:
+                        obj.fit(df, exposure='exp', outcome='dis')
+                except ValueError:
+                    chk.discard('generated frame has an empty cell (calculator rejects it: C07)')
+                    break
                 res = obj.results
                 for (pc, sc, lc, uc, scale) in measures:
                     if pc not in res.columns:
